@@ -301,8 +301,10 @@ func directoryListing(files []os.FileInfo, canGoUp bool, urlPath string, config 
 			}
 		}
 
-		// a hidden entry is neither listed nor counted
-		if config.Fs.IsHidden(f) {
+		// a hidden entry is neither listed nor counted; a symbolic link
+		// is as hidden as the file it leads to (the file server, which
+		// follows the link, does not serve it either)
+		if config.Fs.IsHidden(f) || isSymlinkTargetHidden(f, urlPath, config) {
 			continue
 		}
 
@@ -363,6 +365,26 @@ func isSymlinkTargetDir(f os.FileInfo, urlPath string, config *Config) bool {
 	}
 
 	return targetInfo.IsDir()
+}
+
+// isSymlinkTargetHidden returns true if f is a symbolic link
+// to a file on the hide list
+func isSymlinkTargetHidden(f os.FileInfo, urlPath string, config *Config) bool {
+	if !isSymlink(f) {
+		return false
+	}
+
+	target, err := config.Fs.Root.Open(path.Join(urlPath, f.Name()))
+	if err != nil {
+		return false
+	}
+	defer target.Close()
+	targetInfo, err := target.Stat()
+	if err != nil {
+		return false
+	}
+
+	return config.Fs.IsHidden(targetInfo)
 }
 
 // ServeHTTP determines if the request is for this plugin, and if all prerequisites are met.
